@@ -24,6 +24,8 @@ enum Script {
     Stall { at: usize, k: usize, resume: usize },
     NeverDrain { at: usize, k: usize },
     Broken { at: usize },
+    /// stall at `at` (buffer fills to the high-water mark), then the connection is reset
+    StallThenReset { at: usize, reset: usize },
 }
 
 struct Sub {
@@ -80,7 +82,14 @@ async fn run(ctx: &mut Ctx, ty: &str, nsubs: usize, npub: usize, small: bool, se
                     let at = r.below(npub / 2);
                     Script::Stall { at, k: *r.pick(&[0usize, 1, 2, 5, 9, 100, 70_000]), resume: at + r.range(1, npub / 2) }
                 }
-                4 => Script::NeverDrain { at: r.below(npub / 2), k: r.below(12) },
+                4 => {
+                    if r.chance(1, 2) {
+                        Script::NeverDrain { at: r.below(npub / 2), k: r.below(12) }
+                    } else {
+                        let at = r.below(npub / 2);
+                        Script::StallThenReset { at, reset: at + r.range(3, npub / 3) }
+                    }
+                }
                 _ => Script::Broken { at: r.below(npub) },
             }
         };
@@ -135,6 +144,18 @@ async fn run(ctx: &mut Ctx, ty: &str, nsubs: usize, npub: usize, small: bool, se
                     if i == at {
                         sb.peer.conn.fail_writes(WriteFail::BrokenPipe);
                         ctx.count("broken_pipes");
+                    }
+                }
+                Script::StallThenReset { at, reset } => {
+                    if i == at {
+                        sb.peer.conn.set_credit(Some(0));
+                        sb.stalled_from = Some(i);
+                    }
+                    if i == reset {
+                        // the first write that is attempted at the high-water mark gets ECONNRESET
+                        sb.peer.conn.fail_writes(WriteFail::ConnectionReset);
+                        sb.peer.conn.set_credit(None);
+                        ctx.count("resets_at_the_high_water_mark");
                     }
                 }
                 _ => {}
@@ -210,7 +231,7 @@ async fn run(ctx: &mut Ctx, ty: &str, nsubs: usize, npub: usize, small: bool, se
     for (k, sb) in subs.iter().enumerate() {
         let bytes = sb.peer.out_bytes();
         let d = rc::decode_stream(&bytes, false);
-        let never = matches!(sb.script, Script::NeverDrain { .. } | Script::Broken { .. });
+        let never = matches!(sb.script, Script::NeverDrain { .. } | Script::Broken { .. } | Script::StallThenReset { .. });
         if let Some((o, e)) = &d.error {
             ctx.violation_with(&sig("stream-corrupted"), format!("subscriber {k} ({:?}): tap invalid at {o}: {e}", sb.script), case.clone());
             return;
@@ -317,6 +338,61 @@ async fn run(ctx: &mut Ctx, ty: &str, nsubs: usize, npub: usize, small: bool, se
     }
 }
 
+/// Many subscribers, with subscription messages arriving while publishes are in flight.
+async fn many_subscribers(ctx: &mut Ctx, ty: &str, nsubs: usize, npub: usize, seed: u64, case: &Value) {
+    let mut r = Rng::keyed(seed, &[0x12AA, nsubs as u64]);
+    let mut sock = Sock::new(ty, None);
+    let mut subs = Vec::new();
+    for k in 0..nsubs {
+        match Peer::attach(&sock, "SUB", Some(format!("many{k}").as_bytes())).await {
+            Ok(p) => {
+                p.send(&[vec![1u8]]);
+                subs.push(p);
+            }
+            Err(e) => {
+                ctx.inconclusive(format!("C12 attach: {e}"));
+                return;
+            }
+        }
+    }
+    if ty == "XPUB" {
+        while recv_now(&mut sock).await.is_some() {}
+    }
+    sim::settle().await;
+    for i in 0..npub {
+        // subscription churn lands while the publish below is in flight
+        for _ in 0..8 {
+            let k = r.below(nsubs);
+            subs[k].send(&[vec![1u8, b'x', (i % 250) as u8]]);
+        }
+        let mut msg: Frames = vec![b"t".to_vec()];
+        msg.extend(rc::tagged(3, i as u32, &[64]));
+        match sim::complete(sock.send(&msg)).await {
+            Ok(Ok(())) => {}
+            other => {
+                ctx.violation_with(&format!("C12/publisher-blocked/{ty}"), format!("publish #{i} to {nsubs} subscribers: {other:?}"), case.clone());
+                return;
+            }
+        }
+        if ty == "XPUB" {
+            while recv_now(&mut sock).await.is_some() {}
+        }
+        ctx.count("many_subscriber_publishes");
+    }
+    sim::settle().await;
+    for (k, sb) in subs.iter().enumerate() {
+        let n = sb.out_msgs().map(|m| m.iter().filter(|x| rc::parse_tag(x, 1).map(|t| t.origin == 3).unwrap_or(false)).count()).unwrap_or(0);
+        if n != npub {
+            ctx.violation_with(
+                &format!("C12/accepting-subscriber-missed-messages/{ty}"),
+                format!("subscriber {k} of {nsubs} accepted every write but received {n} of {npub} messages"),
+                case.clone(),
+            );
+            return;
+        }
+    }
+}
+
 impl Prop for C12 {
     fn id(&self) -> &'static str {
         "C12"
@@ -325,6 +401,8 @@ impl Prop for C12 {
     fn cases(&self, tier: Tier, seed: u64) -> Vec<Value> {
         let mut v = Vec::new();
         for ty in ["PUB", "XPUB"] {
+            v.push(json!({"kind": "many", "ty": ty, "subs": 96, "npub": 25, "seed": mix(seed ^ 0x96)}));
+            v.push(json!({"kind": "many", "ty": ty, "subs": 200, "npub": 10, "seed": mix(seed ^ 0x200)}));
             for n in 2..=5usize {
                 for k in 0..tier.pick(12, 100) {
                     v.push(json!({"kind": "run", "ty": ty, "subs": n, "npub": 200, "small": false, "seed": mix(seed ^ 0xC12 ^ (k as u64) << 4 ^ n as u64)}));
@@ -342,6 +420,10 @@ impl Prop for C12 {
         ctx.eval(hash_str(&case.to_string()), true);
         ctx.sample("run", || case.clone());
         let ty = s(case, "ty").to_string();
+        if s(case, "kind") == "many" {
+            sim::run(many_subscribers(ctx, &ty, u(case, "subs") as usize, u(case, "npub") as usize, u(case, "seed"), case));
+            return;
+        }
         sim::run(run(ctx, &ty, u(case, "subs") as usize, u(case, "npub") as usize, case["small"].as_bool().unwrap_or(false), u(case, "seed"), case));
     }
 
@@ -353,6 +435,8 @@ impl Prop for C12 {
             ("resumes_after_stall", 20),
             ("never_draining_subscribers", 5),
             ("broken_pipes", 5),
+            ("resets_at_the_high_water_mark", 3),
+            ("many_subscriber_publishes", 20),
             ("subscribers_with_drops", 10),
             ("partial_write_subscribers_complete", 5),
         ]
